@@ -26,6 +26,7 @@ META = dict(
 )
 META["text"] += ' R3 also: the node function has exactly its four parameters, no mutable default and no global state.'
 META["text"] += ' R3 decides by short-circuit paths with three-valued decisions (a merged `if prune or not S` is read as its two cases). R5 also: every assertion of a type is appended (nothing before the append can leave the iteration) and the candidate list is a map over the ids handed in.'
+META["text"] += ' R5 also: the trees are built over the candidate ids as given (no conversion, no re-binding), read per element of the list handed in.'
 
 
 from ..canon import expand_locals  # noqa: E402
